@@ -75,7 +75,7 @@ fn ais_norm(a: &Option<String>) -> String {
 
 /// transition oracle for one frame applied to the row `b` (None when the frame creates the row)
 #[allow(clippy::too_many_arguments)]
-fn transition(opts: &Opts, m: &mut AcModel, now: i64, f: &Frame, before: Option<&Snap>, a: &Snap, st: &mut Stats) -> Result<(), String> {
+fn transition(_opts: &Opts, m: &mut AcModel, now: i64, f: &Frame, before: Option<&Snap>, a: &Snap, st: &mut Stats) -> Result<(), String> {
     let created = before.is_none();
     let d = default_snap();
     let b = before.unwrap_or(&d);
@@ -141,7 +141,6 @@ fn transition(opts: &Opts, m: &mut AcModel, now: i64, f: &Frame, before: Option<
                 let odd = ((me >> 34) & 1) as usize;
                 m.slots[odd] = Some(Slot { yz: 0, xz: 0, t: now, surface: true });
             }
-            m.commb.on_df17(f.get(6, 8) as u32);
         }
         17 => {
             carried(&mut unchanged, "cap");
@@ -466,6 +465,19 @@ pub fn check_batch_equals_stepwise(opts: &Opts, steps: &[Step]) -> Result<(), St
     let b = run::no_clock(&run::snapshot(&ts));
     if a != b {
         return Err(format!("feeding the history in one run gives a different table than feeding it frame by frame ({}): {}", opts.label(), run::table_diff(&b, &a).iter().take(5).cloned().collect::<Vec<_>>().join("; ")));
+    }
+    // the same with every line doubled (a repeated line is a line like any other)
+    let doubled: Vec<String> = all.iter().flat_map(|l| [l.clone(), l.clone()]).collect();
+    let td = run::new_table();
+    run::run_lines(opts, &td, &doubled).map_err(|e| format!("reader failed on the doubled history: {:?}", e))?;
+    let tds = run::new_table();
+    for l in &doubled {
+        run::run_lines(opts, &tds, std::slice::from_ref(l)).map_err(|e| format!("reader failed: {:?}", e))?;
+    }
+    let a = run::no_clock(&run::snapshot(&td));
+    let b = run::no_clock(&run::snapshot(&tds));
+    if a != b {
+        return Err(format!("feeding the history with every line doubled in one run differs from feeding the same lines one by one ({}): {}", opts.label(), run::table_diff(&b, &a).iter().take(5).cloned().collect::<Vec<_>>().join("; ")));
     }
     Ok(())
 }
